@@ -137,14 +137,18 @@ let c03 toks =
     let d = int_of_string depth in
     let closed = not (Stdlib.String.length shape > 5 &&
                       (let suf = Stdlib.String.sub shape (Stdlib.String.length shape - 5) 5 in suf = "_open")) in
-    let bad = List.mem shape ["arr_garbage"; "obj_garbage"; "arr_sibling"; "long_number_bad"] in
+    let ob = int_of_string o in
+    let bad = List.mem shape ["arr_garbage"; "obj_garbage"; "arr_sibling"; "long_number_bad"]
+              || (d > 0 && List.mem shape ["hi_run"; "hi_run_key"] && ob land 1 = 0)
+              || (d > 0 && shape = "lo_run" && ob land 2 = 0) in
     let long = List.mem shape ["ws_run"; "ws_run_open"; "long_string"; "long_string_open"; "long_number";
-                               "long_number_bad"; "wide_arr"; "wide_obj"] in
+                               "long_number_bad"; "wide_arr"; "wide_obj"; "hi_run"; "lo_run"; "pair_run"; "hi_run_key"] in
     let count = match shape with
       | "arr" -> d | "obj" -> 3 * d + 1 | "mixed" -> d + 2 * (d / 2) + 1
       | "wide_deep" -> 3 * d + 1
       | "ws_run" | "long_string" -> 3 | "long_number" -> 2
-      | "wide_arr" -> d + 2 | "wide_obj" -> 3 * d + 4 | _ -> 0 in
+      | "wide_arr" -> d + 2 | "wide_obj" -> 3 * d + 4
+      | "hi_run" | "pair_run" -> 1 | "lo_run" -> 2 | "hi_run_key" -> 4 | _ -> 0 in
     let expected = if bad || not closed then "ERR" else Printf.sprintf "OK %d/%d" count count in
     (* cross-check the closed form against the model where the model can run *)
     if d <= 500 || (long && d <= 1000) then begin
